@@ -214,7 +214,9 @@ func runC06(c *Ctx) {
 			o.Site(in.Pos(), "success return")
 		}
 		// copied = min(count, len(packet))
-		for _, in := range findInstrs(R, func(in ssa.Instruction) bool { return isSuccessReturn(in) || returnsGlobalErr(in, "io", "ErrShortBuffer") }) {
+		for _, in := range findInstrs(R, func(in ssa.Instruction) bool {
+			return isSuccessReturn(in) || returnsGlobalErr(in, "io", "ErrShortBuffer")
+		}) {
 			n := in.(*ssa.Return).Results[0]
 			if ph, ok := n.(*ssa.Phi); ok {
 				okMin := false
@@ -645,7 +647,7 @@ func c0607Available(c *Ctx, r *bufRoles) {
 		o.Undecide("free-space helper not found")
 	} else {
 		recv, sz := a.Params[0].Name(), a.Params[1].Name()
-		A := linSym(recv + "." + r.head).add(linSym(recv+"."+r.tail), -1)
+		A := linSym(recv+"."+r.head).add(linSym(recv+"."+r.tail), -1)
 		L := linSym("len(" + recv + "." + r.data + ")")
 		paths, ok := enumPathsB(a, 50)
 		if !ok {
@@ -698,7 +700,7 @@ func c0607Available(c *Ctx, r *bufRoles) {
 	o = c.Obl("R8s", "packetio.Buffer.size", "occupancy helper returns tail-head, plus len(data) exactly when that is negative", 2)
 	s := r.sizeFn
 	recv := s.Params[0].Name()
-	D := linSym(recv + "." + r.tail).add(linSym(recv+"."+r.head), -1)
+	D := linSym(recv+"."+r.tail).add(linSym(recv+"."+r.head), -1)
 	L := linSym("len(" + recv + "." + r.data + ")")
 	paths, ok := enumPathsB(s, 50)
 	if !ok {
@@ -778,9 +780,9 @@ func runC07(c *Ctx) {
 		lc, cnt, ls := linSym(recv+"."+r.limitCount), linSym(recv+"."+r.count), linSym(recv+"."+r.limitSize)
 		sz := linSym(r.sizeFn.Name() + "(" + recv + ")")
 		ln := linSym("len(" + pkt + ")")
-		a1 := atom{Form: lc}                                         // limitCount > 0
-		a2 := atom{Form: cnt.add(lc, -1).add(linConst(1), 1)}        // count + 1 > limitCount
-		a3 := atom{Form: ls}                                         // limitSize > 0
+		a1 := atom{Form: lc}                                            // limitCount > 0
+		a2 := atom{Form: cnt.add(lc, -1).add(linConst(1), 1)}           // count + 1 > limitCount
+		a3 := atom{Form: ls}                                            // limitSize > 0
 		a4 := atom{Form: sz.add(ln, 1).add(linConst(2), 1).add(ls, -1)} // size + 2 + len > limitSize
 		cex := d.compareWithSpec(func(val func(a atom) bool) string {
 			if (val(a1) && val(a2)) || (val(a3) && val(a4)) {
@@ -902,7 +904,9 @@ func runC07(c *Ctx) {
 	if m, inf := maxEventsU(entryPos(W), isReturn, func(in ssa.Instruction) int { return b2i(isInc(in)) }); m > 1 || inf {
 		o.Fail(W.Pos(), "count can be incremented more than once per Write")
 	}
-	pktRet := func(in ssa.Instruction) bool { return isSuccessReturn(in) || returnsGlobalErr(in, "io", "ErrShortBuffer") }
+	pktRet := func(in ssa.Instruction) bool {
+		return isSuccessReturn(in) || returnsGlobalErr(in, "io", "ErrShortBuffer")
+	}
 	if ok, bad := mustPassU(entryPos(r.Read), pktRet, isDec); !ok {
 		o.Fail(bad.Pos(), "Read can return a packet without count--")
 	}
@@ -930,7 +934,7 @@ func c07GrowCap(c *Ctx, r *bufRoles) {
 			return
 		}
 		lx, ly := linOf(cm.X, nil), linOf(cm.Y, nil)
-		want := linSym(recv + "." + r.limitSize).add(linConst(1), 1)
+		want := linSym(recv+"."+r.limitSize).add(linConst(1), 1)
 		if cm.Op == token.LSS && lx.eq(want) { // limitSize+1 < newSize
 			seenLimit = true
 			o.Site(in.Pos(), "cap at limitSize+1")
@@ -954,7 +958,7 @@ func c07GrowCap(c *Ctx, r *bufRoles) {
 	})
 	if clampIf != nil {
 		var cut []cfgEdge
-		noLimit := atom{Form: linSym(recv + "." + r.limitSize).scale(-1).add(linConst(1), 1)} // limitSize <= 0
+		noLimit := atom{Form: linSym(recv+"."+r.limitSize).scale(-1).add(linConst(1), 1)} // limitSize <= 0
 		for _, b := range g.Blocks {
 			iff, ok := b.Instrs[len(b.Instrs)-1].(*ssa.If)
 			if !ok {
